@@ -13,8 +13,12 @@ Decided here (the "error exactly when" half quantifies over strings and is not d
                 symbolically (every function on the way returns one result per input, applied to a `vec![..]` literal);
                 `unreachable!` behind a test that cannot fail (the token at a searched position is of the class the search
                 accepts - classes are evaluated, unit propagation over the path condition);
-                a case split on the shape of the tree-node parameter (partial evaluation per shape);
-                for a private helper: the same arguments at each of its call sites, with the caller's path condition;
+                a path condition that contradicts itself (conditions, excluded earlier arms and their guards as clauses, unit
+                propagation, each literal simplified under the others - case collapse of `ite`, get-after-insert, ..), for an
+                unwrap also together with `the value is None / Err`; `i < x.len()` on the same index dominates x[i];
+                a case split on the shape of the tree-node parameter or on an operator-kind parameter (partial evaluation per case);
+                for a private helper: its copies inlined into the callers (closures and function values applied), or the same
+                arguments at each of its call sites, with the caller's path condition;
             G2/G3  a line of tables/panic_discharge.json, keyed by source file, kind and *where the operand comes from* (callee /
                 field / map), not by the enclosing function, whose prerequisites (validators on every path, cache protocol,
                 restrict guard, plain mode without domains, closed results) are re-verified on every run;
@@ -819,17 +823,22 @@ def verify_prerequisites(prog, rep, eng):
     if en.ok():
         # on eval_node's summary (helpers of the layer inlined): wherever the wrapper is called, the operator cannot be Jump - the path
         # condition together with `operator is Jump` contradicts itself (an earlier Jump arm, a test, a dispatch in a helper ..)
-        sites = [s for s in en.summ.all_sites() if s.kind == "call" and s.is_call_to("eval_hybrid_quantifier")]
-        ok = bool(sites)
-        wrapper = prog.lib_fn(E.ALG + "eval_hybrid_quantifier")
-        opi = next((i for i, t in enumerate(wrapper.param_tys) if "HybridOp" in t), None) if wrapper is not None else None
+        # the wrappers: the private functions of the evaluation layer that take the hybrid operator kind and dispatch on it (found by
+        # their signature, not by name)
+        wrappers = [f for f in prog.lib_fns() if f.path.startswith("evaluation::") and f.vis != "Public" and f is not en.fn
+                    and any("operator_enums::HybridOp" in str(t) for t in f.param_tys)]
         jump = ("var", "preprocessing::operator_enums::HybridOp::Jump", (), None)
-        for s in sites:
-            if opi is None or opi >= len(s.args):
-                ok = False
-                continue
-            ok = ok and pc_infeasible(tuple(s.pc) + (("if", ("matches", strip_clone(s.args[opi]), jump), True, None),))
-        ok = ok and not uncovered_callers(prog, en, eng, "eval_hybrid_quantifier")
+        ok = bool(wrappers)
+        for wrapper in wrappers:
+            opi = next((i for i, t in enumerate(wrapper.param_tys) if "HybridOp" in t), None)
+            sites = [s for s in en.summ.all_sites() if s.kind in ("call", "mcall") and isinstance(s.callee, str) and prog.resolve_local(en.fn.crate, s.callee) is wrapper]
+            ok = ok and bool(sites)
+            for s in sites:
+                if opi is None or opi >= len(s.args):
+                    ok = False
+                    continue
+                ok = ok and pc_infeasible(tuple(s.pc) + (("if", ("matches", strip_clone(s.args[opi]), jump), True, None),))
+            ok = ok and not uncovered_callers(prog, en, eng, wrapper.name)
     out["jump-arm-first"] = ok
     # validators on every string entry path
     sub = R("p3")
